@@ -50,11 +50,14 @@ def bases(seed):
         ({'kind': 'update', 'assign': [(('named', 'a', 'val', 'attr'), ('lit', 'U'))], 'where': ('cmp', '>', ('NR',), ('int', 1)), 'join': None}),
     ]
     A = [[k, m + 'o' + k], [m, k], [k, k + 'o'], [m, m]]
+    A = [r + ['c%d_%d' % (i, j) for j in range(3, 13)] for i, r in enumerate(A)]       # 12 columns: two-digit field numbers are available to every base query
+    qs.append(S(items=[F('a', 10), F('a', 12), F('a', 1)], where=('cmp', '!=', F('a', 11), ('lit', 'zz')), order={'keys': [F('a', 10)], 'desc': True}))
+    qs.append({'kind': 'update', 'assign': [(F('a', 11), F('a', 1)), (F('a', 2), F('a', 12)), (F('a', 10), ('lit', 'W'))], 'where': w1, 'join': None})
     B = [[k, 'p'], [m, 'q'], [m, 'r']]
     return qs, named, A, B
 
 
-TRANSFORMS = ['lower', 'mixed', 'dspace', 'tabsep', 'nlsep', 'c_before', 'c_between', 'c_after', 'semicolon', 'bracket_fields', 'toplimit', 'joinalt', 'eqsingle', 'swapon', 'from_a', 'asc']
+TRANSFORMS = ['lower', 'mixed', 'dspace', 'manyspaces', 'tabsep', 'nlsep', 'c_before', 'c_between', 'c_after', 'semicolon', 'bracket_fields', 'toplimit', 'joinalt', 'eqsingle', 'swapon', 'from_a', 'asc']
 
 
 def apply(subset, q):
@@ -63,6 +66,10 @@ def apply(subset, q):
         if t == 'lower': kw['kwcase'] = 'lower'
         elif t == 'mixed': kw['kwcase'] = 'mixed'
         elif t == 'dspace': kw['inner_space'] = '  '
+        elif t == 'manyspaces':
+            kw['inner_space'] = '     '
+            kw['list_sep'] = ',      '
+            kw['assign_eq'] = '     =     '
         elif t == 'tabsep': kw['sep'] = '\t'
         elif t == 'nlsep': kw['sep'] = '\n'
         elif t == 'c_before': kw['comment'] = 'before'
@@ -84,6 +91,7 @@ def apply(subset, q):
 def conflicting(subset):
     s = set(subset)
     if 'lower' in s and 'mixed' in s: return True
+    if 'dspace' in s and 'manyspaces' in s: return True
     if 'tabsep' in s and 'nlsep' in s: return True
     if len(s & {'c_before', 'c_between', 'c_after'}) > 1: return True
     if 'c_between' in s and ('tabsep' in s or 'nlsep' in s): return True
@@ -112,7 +120,9 @@ def part_spelling(sh, res):
     allq = [(q, None, None) for q in qs] + [(q, ['name', 'val'], ['jk', 'jv']) for q in named]
     maxk = sh['maxk']
     jsbatch, jsmeta = [], []
+    A_full = A
     for q, an, bn in allq[sh['lo']:sh['hi']]:
+        A = [r[:2] for r in A_full] if an else A_full        # the named bases address a two-column header
         useB = B if q.get('join') else None
         canon_text = refql.render(q)
         canon = outcome_key(drive.run_py(canon_text, qcheck.copy_table(A), qcheck.copy_table(useB), an, bn if useB else None))
@@ -255,7 +265,7 @@ def main(tier, seed):
         shards.append({'part': 'literals', 'seed': seed, 'lo': lo, 'hi': hi, 'maxtok': maxtok})
     res = core.run_shards('vf.checks.c08', shards)
     return core.finish(PID, tier, seed, res, t0,
-        rule='A: %d base queries x all subsets up to the size bound of 16 spelling transformations (conflicting pairs excluded) x all clause permutations (<= 4 clauses; order and its reverse otherwise), differential against the canonical spelling; '
+        rule='A: %d base queries x all subsets up to the size bound of 17 spelling transformations (conflicting pairs excluded) x all clause permutations (<= 4 clauses; order and its reverse otherwise), differential against the canonical spelling; '
              'B: all token sequences up to the length bound over a %d-token literal alphabet x 2 quote styles x 4 positions x header/no header against RefQL with the literal as an opaque value; non-trivial = a transformed spelling / a non-empty literal' % (n, len(TOKENS)),
         assumptions=['the canonical spelling is tied to RefQL by C01-C05 (and re-checked here for every base query)', 'literal text is written with backslash and same-quote escapes only, tabs raw'],
         extra={'bases': n, 'transformations': TRANSFORMS, 'literal_tokens': TOKENS},
